@@ -72,3 +72,14 @@ Lemma state_w_nontrivial :
   (map (fun e => (fst e, map fst (snd e))) (widgets (cc st)), deps (cc st), length (heap st))
   = ([(3, [16]); (2, [16; 12]); (1, [16]); (0, [16; 12])], [(2, [3]); (1, [2]); (0, [2; 2])], 6%nat).
 Proof. vm_compute. reflexivity. Qed.
+
+(* the collector frees a canvas that a cached canvas still displays (canvas 2 of widget 2, child of canvas 3 of
+   widget 3): cleanup invalidates the dependant, nothing stale afterwards *)
+Definition ops_gc : list op := [Render 3 16; Collect 2; Mutate 1 1].
+Lemma collect_displayed_child :
+  let st := run (list Z) body_w rbody_w rows_w (fun _ => true) (fun _ => true) 5 init ops_gc in
+  (length (heap st), map fst (widgets (cc st)),
+   option_map (fun r => c_content (fst r)) (crender (list Z) body_w (fun _ => true) 5 st 3 16),
+   fresh (list Z) body_w (ver st) 5 3 16)
+  = (3%nat, [0], Some [0; 0; 1; 1], Some [0; 0; 1; 1]).
+Proof. vm_compute. reflexivity. Qed.
